@@ -150,8 +150,8 @@ def register5(reg):
              modifies=['self._memos', 'self._results', 'self.states.state_stack', 'self.states.callstack', 'self.keywords', 'self.semantics'],
              ensures=[('property', 'implies(not self._active_config.ignorecase, self.keywords == self._active_config.keywords)'),
                       # under ignorecase the table holds exactly the upper-cased keywords (C11: compared case-insensitively)
-                      ('property', 'implies(self._active_config.ignorecase, forall_keys(self.keywords, lambda k: '
+                      ('local', 'implies(self._active_config.ignorecase, forall_keys(self.keywords, lambda k: '
                                    'implies(k in self._active_config.keywords, k.upper() in self.keywords)))'),
-                      ('property', 'implies(self._active_config.ignorecase, forall_keys(self.keywords, lambda s: implies(s in self.keywords, '
+                      ('local', 'implies(self._active_config.ignorecase, forall_keys(self.keywords, lambda s: implies(s in self.keywords, '
                                    'exists_key(self.keywords, lambda k: k in self._active_config.keywords and k.upper() == s))))'),
                       'len(self.states.state_stack) == 1', 'len(self.states.callstack) == 0'])
